@@ -191,6 +191,21 @@ func (vc *FnVC) call(c ssa.CallInstruction, val *ssa.Call) {
 		}
 	}
 
+	// the callee may panic after arbitrary partial effects: a possible entry state of the recover block
+	if vc.fn.Recover != nil && val != nil {
+		full := ""
+		if callee != nil {
+			full = callee.String()
+		}
+		_, lib := pureLib[full]
+		if !lib && !(ct != nil && ct.Pure) {
+			pm := pre.havoc(nil, vc.keepSet())
+			if _, isClosure := cc.Value.(*ssa.MakeClosure); !isClosure {
+				vc.protectCells(pre, pm)
+			}
+			vc.panicPoints = append(vc.panicPoints, panicPoint{lit: vc.b(), mem: pm})
+		}
+	}
 	switch {
 	case ct != nil:
 		// callee contract: check requires, havoc frame, assume ensures
@@ -212,6 +227,9 @@ func (vc *FnVC) call(c ssa.CallInstruction, val *ssa.Call) {
 		var post *Mem
 		if all {
 			post = pre.havoc(nil, vc.keepSet())
+			if _, isClosure := cc.Value.(*ssa.MakeClosure); !isClosure {
+				vc.protectCells(pre, post)
+			}
 		} else {
 			post = pre.havoc(set, nil)
 		}
@@ -273,6 +291,9 @@ func (vc *FnVC) call(c ssa.CallInstruction, val *ssa.Call) {
 		} else {
 			vc.emit(fmt.Sprintf("; call %s#%d: no contract, havoc", name, ord))
 			vc.cur = pre.havoc(nil, vc.keepSet())
+			if _, isClosure := cc.Value.(*ssa.MakeClosure); !isClosure {
+				vc.protectCells(pre, vc.cur)
+			}
 			freshResults()
 			if callee != nil || cc.IsInvoke() {
 				vc.trustedUsed["havoc: "+firstNonEmpty(full, name)+" (no contract; results and heap arbitrary)"] = true
